@@ -71,7 +71,9 @@ F5 == { Case("F5", <<SetF(s, ng)>>, FALSE, "") :
                   <<Cls("d"), Ch(95)>>, <<Cls("alpha"), Ch(95)>>, <<Cls("digit"), Ch(97)>>,
                   <<Ch(93), Ch(92), Ch(45)>>, <<Rng(48, 57), Rng(65, 70)>>, <<Cls("D"), Ch(53)>>,
                   <<Rng(33, 47)>>, <<Rng(1, 31)>>, <<Ch(9), Ch(10), Ch(13), Ch(32)>>,
-                  <<Rng(97, 97)>>, <<Cls("s"), Cls("w")>>, <<Cls("upper"), Cls("lower"), Cls("digit")>> },
+                  <<Rng(97, 97)>>, <<Cls("s"), Cls("w")>>, <<Cls("upper"), Cls("lower"), Cls("digit")>>,
+                  \* the last ASCII code point, alone, as the end of a range and through negated classes
+                  <<Ch(127)>>, <<Rng(32, 127)>>, <<Rng(126, 127), Ch(97)>>, <<Cls("W")>>, <<Cls("S")>>, <<Cls("D")>> },
           ng \in BOOLEAN }
       \cup { Case("F5", <<A, SetF(<<Rng(97, 99)>>, ng), RepF(<<SetF(<<Rng(48, 57)>>, ng)>>, 0, -1, "star", FALSE)>>, FALSE, "") : ng \in BOOLEAN }
       \cup { Case("F5", <<SetF(<<Rng(224, 233)>>, FALSE)>>, FALSE, ""), Case("F5", <<SetF(<<Ch(233), Ch(97)>>, FALSE)>>, FALSE, "") }
@@ -139,7 +141,16 @@ Out13(t) == { Star(t), RepF(t, 1, -1, "plus", FALSE), Opt(t), RepF(t, 2, -1, "n_
 F13 == { Case("F13", p \o <<o>>, FALSE, "") : p \in Pre13, o \in UNION { Out13(i) : i \in In13 } }
        \cup { Case("F13", <<AltF(<< <<A>>, <<o>> >>)>>, FALSE, "") : o \in UNION { Out13(i) : i \in In13 } }
 
-All == F13 \cup F12 \cup F10 \cup F9 \cup F1 \cup F1top \cup F2 \cup F3 \cup F4 \cup F5 \cup F6 \cup F8
+\* ---- F14: a top-level alternation of one word with several optional letters and two plain words over {a, b}:
+\*      positions whose follow sets are built by several appends and are shared by different states of the direct construction
+Elems14 == {A, B, Opt(<<A>>), Opt(<<B>>)}
+Rich14(w) == Cardinality({ i \in 1..Len(w) : w[i] \notin {A, B} }) >= 2
+Opt14 == { w \in { <<x, y, z>> : x \in Elems14, y \in Elems14, z \in Elems14 } : Rich14(w) }
+         \cup { w \in { <<x, y, z, u>> : x \in Elems14, y \in Elems14, z \in Elems14, u \in Elems14 } : Rich14(w) }
+Plain14 == { <<x, y>> : x \in {A, B}, y \in {A, B} } \cup { <<x, y, z>> : x \in {A, B}, y \in {A, B}, z \in {A, B} }
+F14 == { Case("F14", <<AltF(<<w, p, q>>)>>, TRUE, "") : w \in Opt14, p \in Plain14, q \in Plain14 }
+
+All == F14 \cup F13 \cup F12 \cup F10 \cup F9 \cup F1 \cup F1top \cup F2 \cup F3 \cup F4 \cup F5 \cup F6 \cup F8
 
 ASSUME /\ ndJsonSerialize("gen_cases.ndjson", SetToSeq(All))
        /\ PrintT(<<"GENERATED", Cardinality(All), "F1", Cardinality(F1) + Cardinality(F1top), "F2", Cardinality(F2),
